@@ -736,7 +736,8 @@ def flatten(self, *dims, **kwargs):
 
     # dimension to insert the new axis at
     if insert is None: 
-        insert = ii  # by default, do not reshape
+        # by default, position of the first listed axis among the dimensions that are kept
+        insert = len([d for d in self.dims[:ii] if d not in dims])
 
     # If dimensions do not follow each other, transpose first
     if dims != self.dims[insert:insert+len(dims)]:
